@@ -34,6 +34,11 @@ Lemma post3_call {A S} (m : step A) (k : Z -> A -> step S) (P : Z -> A -> Prop) 
   post3 (call m k) PN PB PR.
 Proof. intros H K; destruct m; simpl in *; auto; contradiction. Qed.
 
+Lemma post3_call_next {A S} (m : step A) (k : Z -> A -> step S) (P : A -> Prop) PN PB PR :
+  post3 m P (fun _ => False) (fun _ _ => False) -> (forall a, P a -> post3 (k 0 a) PN PB PR) ->
+  post3 (call m k) PN PB PR.
+Proof. intros H K; destruct m; simpl in *; auto; contradiction. Qed.
+
 Lemma post3_sub {A S} (m : step A) (f : A -> S) (k : A -> step S) (P : A -> Prop) PN PB
     (PR : Z -> S -> Prop) :
   post3 m P P (fun c a => PR c (f a)) -> (forall a, P a -> post3 (k a) PN PB PR) ->
@@ -495,16 +500,13 @@ Proof.
     - eapply post3_weaken.
       { apply (for_loop_inv3 (fun s => 0 <= ac_up s < ntot) (fun _ _ => True)); [cbn; lia|].
         intros j s Hs.
-        eapply post3_call.
-        - eapply post3_weaken; [apply down1_post; auto; lia| | |];
-            cbn beta; [|intros ? []|intros ? ? []].
-          intros r Hr. exact Hr.
-        - cbn beta. intros c [rc d] ((B1 & B2)). cbn [fst snd] in *.
+        eapply post3_call_next; [apply down1_post; auto; lia|].
+        { cbn beta. intros [rc d] (B1 & B2). cbn [fst snd] in *.
           destruct (0 <? rc) eqn:E1; [exact I|]. zb.
           assert (rc = 0) by lia. destruct (B2 H) as (_ & G).
           destruct (d <? 0) eqn:E2; zb.
           + acc3. cbn. auto.
-          + acc3. acc3. cbn. destruct G as [G|[G|G]]; lia. }
+          + assert (0 <= d < ntot) by (destruct G as [G|[G|G]]; lia). acc3. acc3. cbn. lia. } }
       all: cbn beta; auto; try (intros; contradiction).
     - intros; cbn; auto. }
   all: cbn beta; auto; try (intros; contradiction).
@@ -530,16 +532,13 @@ Proof.
   { apply (forZ_inv3 (fun sv => Zlen sv = ntot) (fun _ _ => True)); auto.
     intros i sv Hi I1.
     destruct (zmod_guard true i nprint ltac:(auto)) as (v & Ev). rewrite Ev. cbn [bindr].
-    eapply post3_call.
-    - eapply post3_weaken; [apply down1_post; auto; lia| | |];
-        cbn beta; [|intros ? []|intros ? ? []].
-      intros r Hr. exact Hr.
-    - cbn beta. intros c [rc d] ((B1 & B2)). cbn [fst snd] in *.
-      destruct (0 <? rc) eqn:E1; [exact I|]. zb.
+    eapply post3_call_next; [apply down1_post; auto; lia|].
+    cbn beta. intros [rc d] (B1 & B2). cbn [fst snd] in *.
+    { destruct (0 <? rc) eqn:E1; [exact I|]. zb.
       assert (rc = 0) by lia. destruct (B2 H) as (_ & G).
       destruct (0 <=? d) eqn:E2; zb; [|cbn; auto].
       assert (0 <= d < ntot) by (destruct G as [G|[G|G]]; lia).
-      acc3. acc3. acc3. acc3. acc3. acc3. acc3. acc3. cbn. now rewrite Zlen_upd. }
+      acc3. acc3. acc3. acc3. acc3. acc3. acc3. acc3. cbn. now rewrite Zlen_upd. } }
   all: cbn beta; auto; try (intros; contradiction).
 Qed.
 
